@@ -75,7 +75,7 @@ theorem annotChoiceNodes_erase (id : List Tok) (k n : Nat) (info : Info)
       annotSingle_erase (choiceDp id none none info n) (kat id) x vk (hnodes x hx) (hk id))
   · simp only [hk1, Bool.false_eq_true, if_false]
     exact mapIdxM_erase _ cs 0 (fun x hx i =>
-      annotSingle_erase (choiceDp (id ++ [.i (i : Nat)]) (some id) (some i) info n) (kat (id ++ [.i (i : Nat)])) x vk
+      annotSingle_erase (choiceDp (id ++ [.i (i : Nat)]) (some id) (some i) info n k) (kat (id ++ [.i (i : Nat)])) x vk
         (hnodes x hx) (hk _))
 
 mutual
